@@ -54,7 +54,7 @@ Definition sout_eqb (a b : sout) : bool :=
 Record scase := mkSCase {
   sc_scripts : scripts; sc_desc : mdesc; sc_opts : fopts;
   sc_kind : nat; sc_span : list Z; sc_tbl : list (Z * locres);
-  sc_entry : nat;                         (* 0 = solve(start=, end=)   1 = solve_period(start)   2 = iter_periods(start=, end=)   3 = next(iter_periods(start=, end=)) *)
+  sc_entry : nat;                         (* 0 = solve(start=, end=)   1 = solve_period(start)   2 = iter_periods(start=, end=)   3 = next(iter_periods(start=, end=))   4 = next, next, list, list, len on one PeriodIter *)
   sc_start : option Z; sc_end : option Z;
   sc_state : fstate; sx_state : fstate; sx_out : sout }.
 
@@ -64,7 +64,13 @@ Definition run_scase (c : scase) : fstate * sout :=
          | (s', Ret r) => (s', Ret (r_len r, r_visits r))
          | (s', Raise e) => (s', Raise e)
          end
-  | S (S (S _)) =>
+  | S (S (S (S _))) =>
+      (* a = next(pi); b = next(pi); list(pi); list(pi); len(pi) on pi = iter_periods(start=, end=) *)
+      match period_iter_protocol_M (iter_periods_M Z (f_locate (sc_kind c) (sc_span c) (sc_tbl c)) (sc_desc c) (sc_span c) (sc_start c) (sc_end c)) with
+      | Ret (len, ps) => (sc_state c, Ret (len, map (fun tl : Z * Z => (snd tl, fst tl, false)) ps))
+      | Raise e => (sc_state c, Raise e)
+      end
+  | S (S (S O)) =>
       (* next(iter_periods(start=, end=)): the first pair, reported as one visit with flag false *)
       match period_iter_next_M (iter_periods_M Z (f_locate (sc_kind c) (sc_span c) (sc_tbl c)) (sc_desc c) (sc_span c) (sc_start c) (sc_end c)) with
       | Ret (t, lab) => (sc_state c, Ret (1%nat, [(lab, t, false)]))
